@@ -217,6 +217,11 @@ def run(payload):
                 for _ in range(4 if tier == "quick" else 12):
                     subsets.append(sorted(rng.choice(nt, size=rng.randint(1, max(2, nt // 2)), replace=False).tolist()))
             plans = [("marked=%s" % s, [np.array(s, dtype=np.int64)]) for s in subsets]
+            # the marked set is a SET: any order of the index array (descending, shuffled) must give a correct refinement, too
+            for s_ in [x for x in subsets if len(x) >= 2][:: max(1, len(subsets) // 6)][:8]:
+                plans.append(("marked-descending=%s" % s_[::-1], [np.array(s_[::-1], dtype=np.int64)]))
+                sh = list(np.array(s_)[rng.permutation(len(s_))])
+                plans.append(("marked-shuffled=%s" % [int(v) for v in sh], [np.array(sh, dtype=np.int64)]))
             plans.append(("marked-then-uniform", [np.array(subsets[0], dtype=np.int64), 1]))
             plans.append(("marked-then-marked", [np.array(subsets[-1], dtype=np.int64), "again"]))
         for pname, steps in plans:
